@@ -85,7 +85,31 @@ pub unsafe fn exit(status: c_int) -> ! {
 /// Raw system calls with one integer argument (the real `syscall` is variadic,
 /// which neither this crate nor CBMC can define): `SYS_exit` ends only the calling
 /// thread, `SYS_exit_group` the process; anything else is outside the model.
-pub unsafe fn syscall(num: c_long, a1: c_int) -> c_long {
+pub trait SysArg {
+    fn sys_arg(self) -> i64;
+}
+impl SysArg for i32 {
+    fn sys_arg(self) -> i64 {
+        self as i64
+    }
+}
+impl SysArg for i64 {
+    fn sys_arg(self) -> i64 {
+        self
+    }
+}
+impl SysArg for u32 {
+    fn sys_arg(self) -> i64 {
+        self as i64
+    }
+}
+impl SysArg for usize {
+    fn sys_arg(self) -> i64 {
+        self as i64
+    }
+}
+pub unsafe fn syscall<A: SysArg>(num: c_long, a1: A) -> c_long {
+    let a1 = a1.sys_arg() as c_int;
     if num == SYS_exit_group {
         model::die(model::Outcome::Exited {
             status: a1,
